@@ -114,6 +114,140 @@ def _bslice_ret(tr, st, env):
     if not ok: raise Refuse('boundary_slice: return expression changed')
     return V([V([env['rmin'], env['rmax']]), V([env['cmin'], env['cmax']])])
 
+
+# ---------------------------------------------------------------------------------------------- util.window
+def _window_generator(repo):
+    """util.window: the whole decision tree (one-element passthrough, neither / slice / both / shape) is translated statement by
+    statement into `Gen.windowAct`; conditions, the two consistency asserts, the four slice bounds of the returned view and the
+    arguments handed to lentil.pad come from the source text. Anything outside this small statement language is refused."""
+    mod = ast.parse(open(os.path.join(repo, 'lentil/util.py')).read())
+    fn = [n for n in mod.body if isinstance(n, ast.FunctionDef) and n.name == 'window']
+    if not fn: raise Refuse('window not found')
+    fn = fn[0]
+    if [a.arg for a in fn.args.args] != ['img', 'shape', 'slice'] or [ast.unparse(d) for d in fn.args.defaults] != ['None', 'None']:
+        raise Refuse('window: signature changed')
+    body = [x for x in fn.body if not (isinstance(x, ast.Expr) and isinstance(x.value, ast.Constant))]
+    if not body or ast.unparse(body[0]) != 'img = np.asarray(img)': raise Refuse('window: `img = np.asarray(img)` not first')
+    SH = {0: 'sh.1', 1: 'sh.2'}; SL = {0: 'sl.1', 1: 'sl.2.1', 2: 'sl.2.2.1', 3: 'sl.2.2.2'}
+    def ix(e):
+        if isinstance(e, ast.Subscript) and isinstance(e.value, ast.Name) and isinstance(e.slice, ast.Constant) and isinstance(e.slice.value, int):
+            t = {'shape': SH, 'slice': SL}.get(e.value.id)
+            if t is not None and e.slice.value in t: return t[e.slice.value]
+        if isinstance(e, ast.Constant) and isinstance(e.value, int) and not isinstance(e.value, bool):
+            return f'({e.value} : Int)'
+        if isinstance(e, ast.BinOp) and type(e.op) in (ast.Add, ast.Sub, ast.Mult):
+            return f"({ix(e.left)} {({ast.Add: '+', ast.Sub: '-', ast.Mult: '*'})[type(e.op)]} {ix(e.right)})"
+        if isinstance(e, ast.UnaryOp) and isinstance(e.op, ast.USub): return f'(-{ix(e.operand)})'
+        raise Refuse('window: integer expression ' + ast.unparse(e))
+    def cond(e):
+        if isinstance(e, ast.BoolOp):
+            op = ' && ' if isinstance(e.op, ast.And) else ' || '
+            return '(' + op.join(cond(v) for v in e.values) + ')'
+        if isinstance(e, ast.UnaryOp) and isinstance(e.op, ast.Not): return f'(!{cond(e.operand)})'
+        if isinstance(e, ast.Compare) and len(e.ops) == 1:
+            l, o, r = e.left, e.ops[0], e.comparators[0]
+            if isinstance(l, ast.Name) and l.id in ('shape', 'slice') and isinstance(r, ast.Constant) and r.value is None and isinstance(o, (ast.Is, ast.IsNot)):
+                v = {'shape': 'shNone', 'slice': 'slNone'}[l.id]
+                return v if isinstance(o, ast.Is) else f'(!{v})'
+            sym = {ast.Eq: '=', ast.NotEq: '≠', ast.Lt: '<', ast.LtE: '≤', ast.Gt: '>', ast.GtE: '≥'}.get(type(o))
+            if sym:
+                L = 'size' if ast.unparse(l) == 'img.size' else ix(l)
+                R_ = 'size' if ast.unparse(r) == 'img.size' else ix(r)
+                return f'decide ({L} {sym} {R_})'
+        raise Refuse('window: condition ' + ast.unparse(e))
+    def ret(e):
+        if isinstance(e, ast.Name) and e.id == 'img': return 'WindowAct.whole'
+        if isinstance(e, ast.Subscript) and isinstance(e.value, ast.Name) and e.value.id == 'img':
+            idx = e.slice
+            if not (isinstance(idx, ast.Tuple) and len(idx.elts) == 2 and all(isinstance(t, ast.Slice) and t.step is None and t.lower is not None and t.upper is not None for t in idx.elts)):
+                raise Refuse('window: returned view is not img[a:b, c:d]: ' + ast.unparse(e))
+            a, b = idx.elts
+            return f'WindowAct.view {ix(a.lower)} {ix(a.upper)} {ix(b.lower)} {ix(b.upper)}'
+        if isinstance(e, ast.Call) and ast.unparse(e.func) in ('lentil.pad', 'pad') and not e.keywords and len(e.args) == 2 \
+                and ast.unparse(e.args[0]) == 'img' and ast.unparse(e.args[1]) == 'shape':
+            return 'WindowAct.pad sh.1 sh.2'
+        raise Refuse('window: return value ' + ast.unparse(e))
+    def block(stmts, ind):
+        if not stmts: return 'WindowAct.fallthrough'
+        st, rest = stmts[0], stmts[1:]
+        pad = ' ' * ind
+        if isinstance(st, ast.Return) and st.value is not None: return ret(st.value)
+        if isinstance(st, ast.Assert) and st.msg is None:
+            return f'if {cond(st.test)} then\n{pad}  {block(rest, ind + 2)}\n{pad}else WindowAct.refuse'
+        if isinstance(st, ast.If):
+            # an `if` whose branches all return; statements after it are reached only by falling through
+            t = block(st.body + rest, ind + 2); f = block((st.orelse or []) + rest, ind + 2)
+            return f'if {cond(st.test)} then\n{pad}  {t}\n{pad}else\n{pad}  {f}'
+        raise Refuse('window: statement ' + ast.unparse(st)[:80])
+    lean = ('/-- what `util.window` does with its input: return it unchanged, return the view `img[r0:r1, c0:c1]`, hand it to `lentil.pad`\n'
+            'with a target shape, fail an `assert`, or fall off the end (returns `None`) -/\n'
+            'inductive WindowAct where\n  | whole | view (r0 r1 c0 c1 : Int) | pad (s0 s1 : Int) | refuse | fallthrough\n  deriving DecidableEq, Repr\n\n'
+            '/-- `util.window(img, shape, slice)`: decision tree translated from the source. `size` = `img.size`, `shNone`/`slNone` = the argument\n'
+            'is `None`, `sh`/`sl` = its entries otherwise -/\n'
+            'def windowAct (size : Int) (shNone slNone : Bool) (sh : Int × Int) (sl : Int × Int × Int × Int) : WindowAct :=\n  '
+            + block(body[1:], 2) + '\n')
+    return lean, ['window: decision tree, asserts, view bounds and the pad call translated; `img = np.asarray(img)` and the signature checked structurally']
+
+
+# ---------------------------------------------------------------------------------------------- util.centroid
+def _centroid_generator(repo):
+    """util.centroid statement by statement: normalisation img/np.sum(img), the index grids np.mgrid[a:nr, b:nc] (lower bounds translated,
+    upper bounds must be the shape), which grid each np.dot pairs with the image, the order of the returned pair."""
+    mod = ast.parse(open(os.path.join(repo, 'lentil/util.py')).read())
+    fn = [n for n in mod.body if isinstance(n, ast.FunctionDef) and n.name == 'centroid']
+    if not fn: raise Refuse('centroid not found')
+    fn = fn[0]
+    if [a.arg for a in fn.args.args] != ['img'] or fn.args.defaults: raise Refuse('centroid: signature changed')
+    body = [x for x in fn.body if not (isinstance(x, ast.Expr) and isinstance(x.value, ast.Constant))]
+    if len(body) != 7: raise Refuse(f'centroid: 7 statements expected, found {len(body)}')
+    u = lambda x: ast.unparse(x).replace(' ', '')
+    if u(body[0]) != 'img=np.asarray(img)': raise Refuse('centroid: `img = np.asarray(img)` not first')
+    nrm = body[1]
+    if not (isinstance(nrm, ast.Assign) and u(nrm.targets[0]) == 'img'): raise Refuse('centroid: normalisation statement changed')
+    def wx(e):
+        if u(e) == 'img': return 'v'
+        if u(e) in ('np.sum(img)', 'img.sum()'): return 'total'
+        if isinstance(e, ast.BinOp) and type(e.op) in (ast.Div, ast.Mult):
+            return f"({wx(e.left)} {'/' if isinstance(e.op, ast.Div) else '*'} {wx(e.right)})"
+        raise Refuse('centroid: normalisation expression ' + ast.unparse(e))
+    weight = wx(nrm.value)
+    if u(body[2]).replace('(nr,nc)', 'nr,nc') != 'nr,nc=img.shape': raise Refuse('centroid: `nr, nc = img.shape` changed')
+    g = body[3]
+    if not (isinstance(g, ast.Assign) and isinstance(g.targets[0], ast.Tuple) and len(g.targets[0].elts) == 2 and isinstance(g.value, ast.Subscript)
+            and u(g.value.value) == 'np.mgrid'): raise Refuse('centroid: index grids are not np.mgrid[...]')
+    gnames = [u(t) for t in g.targets[0].elts]
+    sl = _slices(g.value)
+    if len(sl) != 2 or [x[1] for x in sl] != ['nr', 'nc']: raise Refuse('centroid: grid upper bounds are not (nr, nc): ' + ast.unparse(g))
+    def lo(t):
+        try: v = int(t)
+        except ValueError: raise Refuse('centroid: grid lower bound ' + t)
+        return f'({v} : Int)'
+    grid = {gnames[0]: f'({lo(sl[0][0])} + i)', gnames[1]: f'({lo(sl[1][0])} + j)'}     # mgrid axis 0 varies with the row index, axis 1 with the column index
+    comp = {}
+    for st in body[4:6]:
+        v = st.value if isinstance(st, ast.Assign) else None
+        if not (v is not None and isinstance(v, ast.Call) and u(v.func) == 'np.dot' and len(v.args) == 2 and not v.keywords):
+            raise Refuse('centroid: component is not np.dot(grid.ravel(), img.ravel()): ' + ast.unparse(st))
+        a = [u(x) for x in v.args]
+        gn = [x[:-len('.ravel()')] for x in a if x.endswith('.ravel()') and x[:-len('.ravel()')] in grid]
+        if len(gn) != 1 or 'img.ravel()' not in a: raise Refuse('centroid: np.dot operands changed: ' + ast.unparse(st))
+        comp[u(st.targets[0])] = grid[gn[0]]
+    r = body[6]
+    if not (isinstance(r, ast.Return) and isinstance(r.value, ast.Tuple) and len(r.value.elts) == 2 and all(u(e) in comp for e in r.value.elts)):
+        raise Refuse('centroid: return changed')
+    c0, c1 = (comp[u(e)] for e in r.value.elts)
+    lean = ('/-- `util.centroid`: the index-grid value that multiplies sample `(i, j)` in returned component `k` (0 or 1) — from `np.mgrid[…]`, the\n'
+            'operands of the two `np.dot` calls and the order of the returned pair -/\n'
+            f'def centroidGrid (k : Nat) (i j : Int) : Int :=\n  match k with\n  | 0 => {c0}\n  | _ => {c1}\n\n'
+            '/-- `util.centroid`: the normalisation of one sample, `total` = `np.sum(img)` -/\n'
+            f'def centroidWeight {{K : Type}} [Mul K] [Div K] (v total : K) : K := {weight}\n\n'
+            '/-- `util.centroid` on an `nr × nc` image over any scalar type (`sum n f` = Σ_{i<n} f i; both `ravel()`s enumerate samples alike) -/\n'
+            'def centroid {K : Type} [Mul K] [Div K] [IntCast K] (sum : Nat → (Nat → K) → K) (nr nc : Nat) (img : Nat → Nat → K) : K × K :=\n'
+            '  let total := sum nr fun i => sum nc fun j => img i j\n'
+            '  (sum nr fun i => sum nc fun j => ((centroidGrid 0 i j : Int) : K) * centroidWeight (img i j) total,\n'
+            '   sum nr fun i => sum nc fun j => ((centroidGrid 1 i j : Int) : K) * centroidWeight (img i j) total)\n')
+    return lean, ['centroid: normalisation, mgrid lower bounds, grid/component pairing and return order translated; asarray, shape unpacking, mgrid upper bounds and the np.dot/ravel form checked structurally']
+
 UTIL = {
     'pad#2': {'py_name': 'pad', 'lean_name': 'padIdx2', 'block': _pad_block,
               'params': [('array', ('attr', {'shape': 'pair'})), ('shape', 'pair'), ('offset', ('const', 0))]},
@@ -390,4 +524,6 @@ MODULES = [
     {'name': 'Helper20', 'src': 'lentil/helper.py', 'sigs': HELPER20, 'props': ['C20']},
     {'name': 'Hex', 'src': 'lentil/segmented.py', 'generator': _hex_generator, 'props': ['C20']},
     {'name': 'Mesh', 'src': 'lentil/helper.py', 'generator': _mesh_generator, 'props': ['C20', 'C11']},
+    {'name': 'UtilCentroid', 'src': 'lentil/util.py', 'generator': _centroid_generator, 'props': ['C20', 'C11']},
+    {'name': 'UtilWindow', 'src': 'lentil/util.py', 'generator': _window_generator, 'props': ['C20']},
 ]
